@@ -21,7 +21,7 @@ inductive Re where
   | look (ahead neg : Bool) (width : Nat) (r : Re)
   | atEnd
   | wordB
-deriving Repr
+deriving Repr, DecidableEq
 
 /-- matcher state: position and capture groups (group ↦ (start, end), most recent first) -/
 structure St where
